@@ -175,7 +175,7 @@ func runC14(c *Ctx) {
 		nAdj++
 		okEq := hasFact(blockFactsWithEdge(bo), func(f Fact) bool {
 			b2, ok := f.Cond.(*ssa.BinOp)
-			if !ok || b2.Op != token.EQL || !f.Pol {
+			if !ok || !assertsEq(b2, f.Pol) {
 				return false
 			}
 			k, isC := constOf(b2.Y)
